@@ -302,10 +302,86 @@ fn long_stream(k: usize, w: usize, d: usize, len: usize) -> (u64, u64, Vec<Viol>
     (len as u64, cmp, viols)
 }
 
+/// "every k >= 1": k far above any possible number of distinct elements ("keep everything") is legal; iter() must then yield every
+/// distinct element seen. Run in a child process, because a constructor that sizes something by k does not panic but aborts the
+/// process on allocation failure (an abort is not catchable in-process).
+fn huge_k_probe_child(k: usize) -> ! {
+    let mut heap: CMSHeap<u32> = CMSHeap::new(k, CountMinSketch::with_params(64, 4));
+    let stream = [3u32, 1, 3, 2, 3, 1, 7];
+    let mut distinct: Vec<u32> = vec![];
+    for x in stream {
+        heap.add(x);
+        if !distinct.contains(&x) {
+            distinct.push(x);
+        }
+        let mut got: Vec<u32> = heap.iter().collect();
+        got.sort();
+        let mut want = distinct.clone();
+        want.sort();
+        if got != want {
+            println!("PROBE-WRONG after adding {:?}: iter() yields {:?}, distinct elements seen {:?}", x, got, want);
+            std::process::exit(0);
+        }
+    }
+    println!("PROBE-OK");
+    std::process::exit(0);
+}
+
+fn huge_k_probes() -> (u64, Vec<Viol>) {
+    let mut viols = vec![];
+    let ks = [usize::MAX, usize::MAX / 2, usize::MAX / 16, 1usize << 48, 1usize << 40];
+    let exe = match std::env::current_exe() {
+        Ok(e) => e,
+        Err(e) => {
+            eprintln!("MACHINERY: cannot locate own executable: {}", e);
+            std::process::exit(2);
+        }
+    };
+    for &k in &ks {
+        let out = std::process::Command::new(&exe).env("VERIF_C10_HUGE_K", k.to_string()).output();
+        let out = match out {
+            Ok(o) => o,
+            Err(e) => {
+                eprintln!("MACHINERY: cannot start the huge-k probe: {}", e);
+                std::process::exit(2);
+            }
+        };
+        let stdout = String::from_utf8_lossy(&out.stdout).to_string();
+        let stderr = String::from_utf8_lossy(&out.stderr).to_string();
+        if stdout.contains("PROBE-OK") {
+            continue;
+        }
+        let what = if stdout.contains("PROBE-WRONG") {
+            stdout.lines().find(|l| l.contains("PROBE-WRONG")).unwrap_or("").replace("PROBE-WRONG ", "")
+        } else {
+            let last = stderr.lines().filter(|l| !l.trim().is_empty()).find(|l| l.contains("panicked") || l.contains("memory allocation") || l.contains("overflow")).unwrap_or("").to_string();
+            let next = stderr.lines().skip_while(|l| !l.contains("panicked")).nth(1).unwrap_or("").to_string();
+            format!("the process {} ({} {})", match out.status.code() { Some(c) => format!("exits with status {}", c), None => "is killed by a signal (abort)".to_string() }, last.trim(), next.trim())
+        };
+        viols.push(Viol { property: "C10".into(), signature: "cmsheap huge k".into(), message: format!("CMSHeap::new(k = {}, 64x4 sketch) + 7 adds: {}", k, what),
+            replay: json!({"structure": "CMSHeap", "k": k, "sketch": [64, 4], "stream": [3, 1, 3, 2, 3, 1, 7], "expected": "iter() yields every distinct element seen", "observed": what}) });
+        break;
+    }
+    (ks.len() as u64, viols)
+}
+
 fn main() {
+    if let Ok(k) = std::env::var("VERIF_C10_HUGE_K") {
+        match k.parse::<usize>() {
+            Ok(k) => huge_k_probe_child(k),
+            Err(_) => std::process::exit(2),
+        }
+    }
     let args = parse_args();
     let mut run = Runner::new("C10", &args.tier, "model_checking");
     let thorough = run.thorough();
+    {
+        let (n, vs) = huge_k_probes();
+        run.ev.set("huge_k_probes", json!(n));
+        for v in vs {
+            run.violation(v);
+        }
+    }
     let mut jobs: Vec<Job> = vec![];
     for k in 1..=3usize {
         for (w, d) in [(1usize, 1usize), (2, 1), (1, 2), (2, 2)] {
